@@ -927,7 +927,49 @@ func c19RoundTrips(c *Ctx) {
 					}
 				}
 			}
+			// the slice of parameters handed to Call belongs to the caller: it is neither changed nor retained (it has spare
+			// capacity here, as a slice built by append usually has), and the results of one call survive the next call
+			var clob []int64
+			if err == nil {
+				_, err = vm2.Eval(fstest.MapFS{}, "n.go", "func neg(a, b, c int) int { return -a }")
+				args := make([]goat.Value, 0, 8)
+				args = append(args, goat.Int(1), goat.Int(2), goat.Int(3))
+				var r1, r2 []goat.Value
+				if err == nil {
+					r1, err = vm2.Call("main.neg", 1, args...)
+				}
+				if err == nil {
+					r2, err = vm2.Call("main.neg", 1, args...)
+				}
+				if err == nil {
+					clob = []int64{int64(args[0].Int()), int64(args[1].Int()), int64(args[2].Int()), int64(r1[0].Int()), int64(r2[0].Int())}
+				}
+			}
+			// nil-ness of what a script hands to the host: nil slices, maps, references and functions are nil, made ones are not
+			var nils []int64
+			if err == nil {
+				_, err = vm2.Eval(fstest.MapFS{}, "z.go", "type Z struct{ A int }\nfunc nils() ([]int, map[string]int, *Z, func(), any, error) { return nil, nil, nil, nil, nil, nil }\nfunc made() ([]int, map[string]int, *Z, func(), any) { return []int{}, map[string]int{}, &Z{}, func() {}, 0 }")
+				for _, fn := range []string{"main.nils", "main.made"} {
+					var rets []goat.Value
+					n := 6
+					if fn == "main.made" {
+						n = 5
+					}
+					if err == nil {
+						rets, err = vm2.Call(fn, n)
+					}
+					for _, r := range rets {
+						nils = append(nils, b2i(r.IsNil()))
+					}
+				}
+			}
 			goat.VerifSetBudget(-1)
+			if err == nil {
+				ids = append(ids, map[string]any{"kind": "Call.IsNil", "x": []int64{1, 1, 1, 1, 1, 1, 0, 0, 0, 0, 0}, "got": nils})
+			}
+			if err == nil {
+				ids = append(ids, map[string]any{"kind": "Call.paramsUntouched", "x": []int64{1, 2, 3, -1, -1}, "got": clob})
+			}
 			if err != nil {
 				c.violate(hashKey("variadic-method-local"), "variadic method through a local receiver / typed results: "+firstLine(err.Error()), map[string]any{"error": err.Error()})
 			} else {
